@@ -147,8 +147,9 @@ def mu (t : Bytes) : Nat :=
 theorem chblocksStep_next (fx : Fixes) (tbl : List (Bytes × Bytes)) (ulen : Nat) (t t' : Bytes)
     (h : chblocksStep fx tbl ulen t = .next t') :
     ∃ start e row, findSub needle t = some start ∧ row < tbl.length ∧
-      (t' = t.take start ++ (tbl.getD row ([], [])).2.take ulen ++ t.drop (start + e + 1) ∨
-       t' = t.take start ++ ((tbl.getD row ([], [])).2.drop 1).take (ulen - 2) ++ t.drop (start + e + 1)) := by
+      (t' = t.take start ++ (tbl.getD row ([], [])).2.take (copyLen fx.f187 ulen (tbl.getD row ([], [])).2) ++ t.drop (start + e + 1) ∨
+       t' = t.take start ++ ((tbl.getD row ([], [])).2.drop 1).take (copyLen fx.f187 ulen (tbl.getD row ([], [])).2 - 2) ++
+         t.drop (start + e + 1)) := by
   unfold chblocksStep at h
   cases hs : findSub needle t with
   | none => simp [hs] at h
@@ -164,12 +165,12 @@ theorem chblocksStep_next (fx : Fixes) (tbl : List (Bytes × Bytes)) (ulen : Nat
       | none => simp at h
       | some found =>
         simp only [] at h
-        generalize hrow : (if fx.f1 = true then (found : Int) else depthOf (t.take start)) = row at h
+        generalize hrow : (if fx.f1 = true then (found : Int) else depthWith fx (t.take start)) = row at h
         by_cases hc : row < 0 ∨ row ≥ (tbl.length : Int)
         · simp [hc] at h
         · simp only [hc, if_false, Step.next.injEq] at h
           refine ⟨start, e, row.toNat, rfl, by omega, ?_⟩
-          by_cases hd : depthOf (t.take start) ≠ 0
+          by_cases hd : depthWith fx (t.take start) ≠ 0
           · right
             simp only [hd, ne_eq, not_false_eq_true, if_true] at h
             exact h.symm
@@ -177,8 +178,10 @@ theorem chblocksStep_next (fx : Fixes) (tbl : List (Bytes × Bytes)) (ulen : Nat
             simp only [hd, if_false] at h
             exact h.symm
 
-def GoodTable (tbl : List (Bytes × Bytes)) (ulen : Nat) : Prop :=
-  ∀ row ∈ tbl, good (row.2.take ulen) = true ∧ good ((row.2.drop 1).take (ulen - 2)) = true
+/-- both texts every row can contribute are `good`; `f187`: the length rule (`copyLen`) -/
+def GoodTable (tbl : List (Bytes × Bytes)) (ulen : Nat) (f187 : Bool) : Prop :=
+  ∀ row ∈ tbl, good (row.2.take (copyLen f187 ulen row.2)) = true ∧
+    good ((row.2.drop 1).take (copyLen f187 ulen row.2 - 2)) = true
 
 theorem occAt_bound {t : Bytes} {i : Nat} (h : OccAt t i) : i + 5 ≤ t.length := by
   rw [occAt_iff] at h
@@ -191,7 +194,7 @@ theorem occAt_bound {t : Bytes} {i : Nat} (h : OccAt t i) : i + 5 ≤ t.length :
     cases this
   omega
 
-theorem mu_decreases (fx : Fixes) (tbl : List (Bytes × Bytes)) (ulen : Nat) (hT : GoodTable tbl ulen) (t t' : Bytes)
+theorem mu_decreases (fx : Fixes) (tbl : List (Bytes × Bytes)) (ulen : Nat) (hT : GoodTable tbl ulen fx.f187) (t t' : Bytes)
     (h : chblocksStep fx tbl ulen t = .next t') : mu t' < mu t := by
   obtain ⟨start, e, row, hs, hrow, ht'⟩ := chblocksStep_next fx tbl ulen t t' h
   obtain ⟨hocc, hfirst⟩ := findSub_some hs
@@ -243,12 +246,12 @@ theorem chblocksStep_ne_fuel (fx : Fixes) (tbl : List (Bytes × Bytes)) (ulen : 
       | none => simp
       | some found =>
         simp only []
-        generalize (if fx.f1 = true then (found : Int) else depthOf (t.take start)) = row
+        generalize (if fx.f1 = true then (found : Int) else depthWith fx (t.take start)) = row
         by_cases hc : row < 0 ∨ row ≥ (tbl.length : Int)
         · simp [hc]
         · simp [hc]
 
-theorem chblocksLoop_fuel (fx : Fixes) (tbl : List (Bytes × Bytes)) (ulen : Nat) (hT : GoodTable tbl ulen) :
+theorem chblocksLoop_fuel (fx : Fixes) (tbl : List (Bytes × Bytes)) (ulen : Nat) (hT : GoodTable tbl ulen fx.f187) :
     ∀ (n : Nat) (t : Bytes), mu t < n → chblocksLoop fx tbl ulen n t ≠ .error .fuel
   | 0, _, h => by omega
   | n + 1, t, h => by
@@ -267,12 +270,13 @@ theorem mu_le_length (t : Bytes) : mu t ≤ t.length := by
   unfold mu
   split <;> omega
 
-theorem goodTable_ublocks : GoodTable ublocks Generated.UBlocks.URANGE_LEN := by
+/-- the table of the source now, every row copied in its own length (the length rule of the source now, F187 repaired) -/
+theorem goodTable_ublocks : GoodTable ublocks Generated.UBlocks.URANGE_LEN true := by
   unfold GoodTable
   decide +kernel
 
 /-- the fuel `chblocks` gives its loop is sufficient: the model never reports `fuel` (the C loop terminates) -/
-theorem chblocks_fuel_sufficient (fx : Fixes) (t : Bytes) : chblocks fx t ≠ .error .fuel :=
-  chblocksLoop_fuel fx ublocks _ goodTable_ublocks (t.length + 1) t (by have := mu_le_length t; omega)
+theorem chblocks_fuel_sufficient (fx : Fixes) (h187 : fx.f187 = true) (t : Bytes) : chblocks fx t ≠ .error .fuel :=
+  chblocksLoop_fuel fx ublocks _ (h187 ▸ goodTable_ublocks) (t.length + 1) t (by have := mu_le_length t; omega)
 
 end LyModel.XsdRe
